@@ -475,7 +475,13 @@ func TestVerifC40Programs(t *testing.T) {
 		fail("the race detector reported %d data race(s) while this program ran; accesses by: %s\n%s\n%s", delta, class, prog, where)
 	}
 
+	poisoned := "" // report of a stalled case: its Core could not be shut down and is still alive in this process
 	rapid.Check(t, func(t *rapid.T) {
+		if poisoned != "" {
+			// a second Core next to a stalled one is not a situation the server is ever in (one Core per process);
+			// rapid's reproduce/shrink re-runs therefore only repeat the verdict of the original program
+			t.Fatalf("(not re-run: an earlier case of this process stalled and its Core is still alive; the program below is the original one)\n%s", poisoned)
+		}
 		// units differ in GOMAXPROCS only; the salt (from the unit's env) shifts the draw stream so that they do not
 		// all run the same programs
 		for i := 0; i < kit.EnvInt("C40_SALT", 0); i++ {
@@ -518,10 +524,12 @@ func TestVerifC40Programs(t *testing.T) {
 		if out.stalled != "" {
 			if !out.deadlock {
 				fmt.Fprintf(os.Stderr, "VERIF-INCONCLUSIVE: a step exceeded %v but goroutines were still moving (slow machine?)\n", c40StepLimit())
-				t.Fatalf("step did not return within %v, progress visible: %s\n%s\n%s", c40StepLimit(), out.stalled, c40Report(p, out), out.stacks)
+				poisoned = fmt.Sprintf("step did not return within %v, progress visible: %s\n%s\n%s", c40StepLimit(), out.stalled, c40Report(p, out), out.stacks)
+				t.Fatalf("%s", poisoned)
 			}
-			t.Fatalf("DEADLOCK SIGNATURE: %s did not return within %v; in two goroutine dumps 10 s apart it is blocked in the same call and nobody inside mediamtx is running or runnable\n%s\n%s",
+			poisoned = fmt.Sprintf("DEADLOCK SIGNATURE: %s did not return within %v; in two goroutine dumps 10 s apart it is blocked in the same call and nobody inside mediamtx is running or runnable\n%s\n%s",
 				out.stalled, c40StepLimit(), c40Report(p, out), out.stacks)
+			t.Fatalf("%s", poisoned)
 		}
 		checkRaces(t.Fatalf, &p, out)
 	})
